@@ -1301,8 +1301,8 @@ def run(ctx):
         l1, cells, reg = st.value_line('tr', c, est)
         l2, _, _ = st.value_line('rt', c, est)
         lines += [l1, l2]
-        meta.append(('tr', c, (Xt, cells, reg)))
-        meta.append(('rt', c, (Xr, cells, reg)))
+        meta.append(('tr', c, (Xt, cells, reg, est)))
+        meta.append(('rt', c, (Xr, cells, reg, est)))
     replies = drv.ask(lines)
     for (kind, c, obs), rep in zip(meta, replies):
         ctx.count('obs:' + kind)
@@ -1325,10 +1325,15 @@ def run(ctx):
                 ctx.fail('config_context / set_config program ends in a state the machine does not predict',
                          {'start': c[0], 'prog': prog_tokens(c[1]), 'impl': str(obs), 'model': rep}, {'part': 'config'})
         else:
-            A, cells, reg = obs
+            A, cells, reg, est_c = obs
             st.count_dist(ctx, c)
             ctx.record_case({k: c[k] for k in ('spec', 'nx', 'nu', 'ep')}, True)
-            why = st.compare_values(A, rep, c, cells, reg)
+
+            def same_call(Z, est_c=est_c, kind=kind):
+                with pykoop.config_context(skip_validation=True):
+                    T = est_c.transform(Z)
+                    return T if kind == 'tr' else est_c.inverse_transform(T)
+            why = st.compare_values_guarded(A, rep, c, cells, reg, same_call, count=ctx.count)
             if why:
                 ctx.mismatch(f'{kind} under skip_validation=True: {why}', c, None, None)
     n_nonfinite = 0
